@@ -10,6 +10,7 @@ import (
 	"os"
 	"path/filepath"
 	"sync"
+	"sync/atomic"
 	"time"
 
 	"go.uber.org/zap"
@@ -39,7 +40,7 @@ type WALFileType struct {
 	ReplicationSender ReplicationSender // send messages to replica servers
 	WALBypass         bool              // TODO: refactor: unexport this param
 	BackgroundSync    bool              // TODO: refactor: unexport this param
-	shutdownPending   *bool
+	shutdownPending   *int32 // accessed atomically: set by Shutdown, polled by the SyncWAL goroutine
 	walWaitGroup      *sync.WaitGroup
 	tpd               *TriggerPluginDispatcher
 	txnPipe           *TransactionPipe
@@ -68,7 +69,7 @@ func NewWALFile(rootDir string, owningInstanceID int64, rs ReplicationSender,
 	walBypass bool, walWaitGroup *sync.WaitGroup, tpd *TriggerPluginDispatcher,
 	txnPipe *TransactionPipe,
 ) (wf *WALFileType, err error) {
-	shutdownPending := false
+	shutdownPending := int32(0)
 	wf = &WALFileType{
 		lastCommittedTGID: 0,
 		OwningInstanceID:  owningInstanceID,
@@ -712,7 +713,8 @@ func sanityCheckValue(fp *os.File, value int64) (isSane bool) {
 	return value < sanityLen
 }
 
-var haveWALWriter = false
+// haveWALWriter is accessed atomically: it is set by the SyncWAL goroutine and read by every writer.
+var haveWALWriter int32
 
 func (wf *WALFileType) SyncWAL(walRefresh, primaryRefresh time.Duration, walRotateInterval int) {
 	/*
@@ -722,7 +724,7 @@ func (wf *WALFileType) SyncWAL(walRefresh, primaryRefresh time.Duration, walRota
 		numTickerCheckPerWALRefresh = 100
 		writeChannelCapThreshold    = 0.8
 	)
-	haveWALWriter = true
+	atomic.StoreInt32(&haveWALWriter, 1)
 	tickerWAL := time.NewTicker(walRefresh)
 	tickerPrimary := time.NewTicker(primaryRefresh)
 	tickerCheck := time.NewTicker(walRefresh / numTickerCheckPerWALRefresh)
@@ -730,7 +732,7 @@ func (wf *WALFileType) SyncWAL(walRefresh, primaryRefresh time.Duration, walRota
 
 	chanCap := cap(wf.txnPipe.writeChannel)
 	for {
-		if !*wf.shutdownPending {
+		if atomic.LoadInt32(wf.shutdownPending) == 0 {
 			select {
 			case <-tickerWAL.C:
 				verifhook.At("wal.loop.flush")
@@ -770,7 +772,7 @@ func (wf *WALFileType) SyncWAL(walRefresh, primaryRefresh time.Duration, walRota
 				}
 			}
 		} else {
-			haveWALWriter = false
+			atomic.StoreInt32(&haveWALWriter, 0)
 			verifhook.At("wal.loop.shutdown")
 			log.Info("Flushing to WAL...")
 			err := wf.FlushToWAL()
@@ -795,7 +797,7 @@ func (wf *WALFileType) SyncWAL(walRefresh, primaryRefresh time.Duration, walRota
 // (synced) and in the primary store when it returns.
 func (wf *WALFileType) RequestFlush() {
 	verifhook.At("wal.reqflush.enter")
-	if !haveWALWriter {
+	if atomic.LoadInt32(&haveWALWriter) == 0 {
 		if err := wf.FlushToWAL(); err != nil {
 			log.Error("failed to flush WAL", zap.Error(err))
 		}
@@ -811,7 +813,7 @@ func (wf *WALFileType) RequestFlush() {
 }
 
 func (wf *WALFileType) Shutdown() {
-	*wf.shutdownPending = true
+	atomic.StoreInt32(wf.shutdownPending, 1)
 	wf.walWaitGroup.Wait()
 	wf.finishAndWait()
 }
